@@ -639,6 +639,29 @@ def _emptiness_tests(nv):
     return out
 
 
+def array_buffer_window(lib):
+    """(adt path, pos field, len field) of xt's fixed array buffer (a struct with a [u8; N] field and two usize cursors
+    whose unread window is `buf[pos..len]`), or (None, None, None)."""
+    ab = [p for p, a in lib.adts.items() if a["crate"] == "xt" and a["kind"] == "struct" and any(f["ty"].startswith("[u8; ") for f in a["variants"][0]["fields"]) and sum(1 for f in a["variants"][0]["fields"] if f["ty"] == "usize") == 2]
+    if len(ab) != 1:
+        return None, None, None
+    adt = ab[0]
+    pos_f = len_f = None
+    for b in lib.bodies:
+        if b.raw.get("impl_self_adt") != adt:
+            continue
+        for bi, blk in enumerate(b.blocks):
+            for s in blk["stmts"]:
+                if s["k"] == "assign" and s["rv"]["k"] == "aggregate" and s["rv"].get("adt") == "std::ops::Range" and len(s["rv"]["ops"]) == 2:
+                    fs = []
+                    for o in s["rv"]["ops"]:
+                        tr = trace(b, o)
+                        fs.append(next((st_[1] for st_ in tr.steps if st_[0] == "field" and st_[2] == adt), None))
+                    if all(fs) and fs[0] != fs[1]:
+                        pos_f, len_f = fs
+    return adt, pos_f, len_f
+
+
 @rule("R04.2", 8, "re-verified guards of the anchored panic sites (size calculator bounds, length reader, capture reader slicing, buffer encapsulation)", ["C04"])
 def r04_2(ctx):
     import r_c18
@@ -858,6 +881,39 @@ def r04_2(ctx):
                             continue
                         ok_r = any(b.dominates(z, bi) for z in pos_zero) or (bool(pos_zero) and b.must_pass(bi, b.return_blocks(), pos_zero)) or bi in pos_zero
                         ctx.ob(f"G7:reset-keeps-pos-le-len:{b.name}", ok_r, site(b, bi), f"`{len_f}` is re-initialised together with `{pos_f} = 0`" if ok_r else f"`{len_f}` is reset while `{pos_f}` keeps its old value: buf[{pos_f}..{len_f}] can panic with start > end")
+    # G8: `char::encode_utf8(dst)` panics inside std when dst is shorter than the character's encoding (up to 4 bytes):
+    # the destination is a [u8; N >= 4] array, or the call is reached only over an edge on which len(dst) >= 4 is
+    # known, taken since dst was last re-sliced
+    import r_c07
+
+    n8 = 0
+    for b in lib.bodies:
+        e4 = None
+        for bb, t in b.calls():
+            f = fn_of(t) or {}
+            if f.get("name") != "encode_utf8" or "char" not in f.get("def", "") or len(t["args"]) < 2:
+                continue
+            n8 += 1
+            alen = r_c07._array_len_behind(b, t["args"][1])
+            if alen is not None:
+                ctx.ob(f"G8:encode_utf8-destination:{b.name}:{_nth(_g8_seen, (ctx.config, b.id))}", alen >= 4, site(b, bb), f"destination is a [u8; {alen}] array" + ("" if alen >= 4 else ": shorter than a 4-byte character"))
+                continue
+            root = _slice_root(b, t["args"][1])
+            if e4 is None:
+                e4 = _nonempty_edges(b, atleast=4)
+            ok = False
+            for r, (src, dst) in e4:
+                if r != root:
+                    continue
+                starts = [0] + [db for db, _, _, _ in b.whole_defs(root)]
+                if bb not in b.reachable_from(starts, removed_edges=[(src, dst)]):
+                    ok = True
+                    break
+            ctx.ob(f"G8:encode_utf8-destination:{b.name}:{_nth(_g8_seen, (ctx.config, b.id))}", ok, site(b, bb),
+                   "the destination slice was tested to hold at least 4 bytes since it was last re-sliced" if ok else
+                   "the destination slice is not known to hold 4 bytes here: a supplementary-plane character (4 bytes in UTF-8) makes encode_utf8 panic, and the binary aborts")
+    _g8_seen.clear()
+    ctx.ob("G8:encode_utf8-sites", n8 >= 2, "lib", f"{n8} encode_utf8 call(s)")
 
 
 @rule("R04.3", 6, "use-once typestate behind take_parent().expect(): each State-bearing object is handed to exactly one driver call per construction; take_parent is reached at most once per body", ["C04"])
@@ -1260,6 +1316,38 @@ def r04_7(ctx):
             ctx.ob("control:raw-marker-sizes", False, "tables/controls/src/lib.rs", "control function raw_marker_fast_path not found")
 
 
+def _small_const(b, op, depth=0):
+    """Integer value of an operand that is a constant, a copy of one, or checked arithmetic over such (`MAX - 1`)."""
+    if depth > 5:
+        return None
+    v = const_value(op)
+    if isinstance(v, int) and not isinstance(v, bool):
+        return v
+    if not is_place(op):
+        return None
+    pr = op["p"]["pr"]
+    if pr and not (len(pr) == 1 and pr[0]["k"] == "field" and str(pr[0].get("name")) == "0"):
+        return None
+    ds = b.whole_defs(op["p"]["l"])
+    if len(ds) != 1 or ds[0][2] != "assign":
+        return None
+    rv = ds[0][3]["rv"]
+    if rv["k"] == "use" and not pr:
+        return _small_const(b, rv["op"], depth + 1)
+    if rv["k"] == "binop" and (bool(pr) == rv["op"].endswith("WithOverflow")):
+        x, y = _small_const(b, rv["a"], depth + 1), _small_const(b, rv["b"], depth + 1)
+        if x is None or y is None:
+            return None
+        opn = rv["op"].replace("WithOverflow", "").replace("Unchecked", "")
+        if opn == "Add":
+            return x + y
+        if opn == "Sub" and x >= y:
+            return x - y
+        if opn == "Mul":
+            return x * y
+    return None
+
+
 def _copy_root(b, l, depth=0):
     """Follow single-definition plain copies of a local back to where the value comes from."""
     ds = b.whole_defs(l)
@@ -1332,10 +1420,12 @@ def _advanced_in_step(b, counter, whole, test_block):
     return None
 
 
-def _nonempty_edges(b):
+def _nonempty_edges(b, atleast=1):
     """[(root slice local, (src block, dst block))]: CFG edges of body b on which that slice is known to be non-empty
-    (`is_empty()` false, a length compared with a constant, a `[]` pattern not matched, `first()`/`split_first()` Some)."""
+    (`is_empty()` false, a length compared with a constant, a `[]` pattern not matched, `first()`/`split_first()` Some);
+    with `atleast` = K > 1: edges on which its length is known to be at least K (length comparisons only)."""
     out = []
+    K = atleast
     cur = [None]
 
     def resolve(op, neg=False, depth=0):
@@ -1355,10 +1445,10 @@ def _nonempty_edges(b):
             d = f.get("def", "")
             if d.startswith("core::slice") and f.get("name") == "is_empty" and payload["args"]:
                 r = _slice_root(b, payload["args"][0])
-                return ("bool", r, 0 if neg else 1) if r is not None else None
+                return ("bool", r, 0 if neg else 1) if r is not None and K == 1 else None
             if d.startswith("core::slice") and f.get("name") in ("first", "split_first", "last", "split_last", "first_mut") and payload["args"]:
                 r = _slice_root(b, payload["args"][0])
-                return ("opt", r) if r is not None else None
+                return ("opt", r) if r is not None and K == 1 else None
             return None
         rv = payload["rv"]
         if rv["k"] == "use":
@@ -1370,19 +1460,19 @@ def _nonempty_edges(b):
             return inner if inner and inner[0] == "opt" else None
         if rv["k"] == "binop" and rv["op"] in ("Eq", "Ne", "Lt", "Le", "Gt", "Ge"):
             for x, y, flip in ((rv["a"], rv["b"], False), (rv["b"], rv["a"], True)):
-                c = const_value(y)
-                if c is None and is_place(y):
-                    ct_ = trace(b, y)
-                    if ct_.origin and ct_.origin[0] == "const" and all(x_[0] == "use" for x_ in ct_.steps):
-                        c = ct_.origin[1].get("v")
+                c = _small_const(b, y)
                 r = _len_of(b, x) if is_place(x) else None
                 if r is None or not isinstance(c, int):
                     continue
-                lhs, rhs = (0, c) if not flip else (c, 0)
-                v = {"Eq": lhs == rhs, "Ne": lhs != rhs, "Lt": lhs < rhs, "Le": lhs <= rhs, "Gt": lhs > rhs, "Ge": lhs >= rhs}[rv["op"]]
-                v = int(v) ^ int(neg)
+                vals = set()
+                for short in range(K):
+                    lhs, rhs = (short, c) if not flip else (c, short)
+                    vals.add({"Eq": lhs == rhs, "Ne": lhs != rhs, "Lt": lhs < rhs, "Le": lhs <= rhs, "Gt": lhs > rhs, "Ge": lhs >= rhs}[rv["op"]])
+                if len(vals) != 1:
+                    return None  # lengths below K fall on both sides of this test
+                v = int(vals.pop()) ^ int(neg)
                 return ("bool", r, v)
-            if rv["op"] in ("Eq", "Ne"):
+            if rv["op"] in ("Eq", "Ne") and K == 1:
                 # `consumed == whole.len()` where a remainder is advanced in step with the counter
                 for x, y in ((rv["a"], rv["b"]), (rv["b"], rv["a"])):
                     whole = _len_of(b, x) if is_place(x) else None
@@ -1412,9 +1502,9 @@ def _nonempty_edges(b):
         elif r[0] == "len":
             listed = [v for v, _ in t["targets"]]
             for v, tgt in t["targets"]:
-                if v != 0:
+                if isinstance(v, int) and v >= K:
                     out.append((r[1], (bi, tgt)))
-            if 0 in listed:
+            if all(short in listed for short in range(K)):
                 out.append((r[1], (bi, t["otherwise"])))
         elif r[0] == "opt":
             for v, tgt in t["targets"]:
@@ -1470,3 +1560,4 @@ def r04_8(ctx):
 
 
 _r048_seen = {}
+_g8_seen = {}
